@@ -317,6 +317,32 @@ func (x *Exec) evalIdent(sc *specCtx, name string) Value {
 	if v, ok := sc.lookupVar(name); ok {
 		return v
 	}
+	if (name == "rangerune" || name == "rangepos") && sc.frame != nil {
+		// the rune (byte position) produced by the innermost `range` over a string in the current iteration
+		best := -1
+		var out Value
+		for k, rv := range sc.frame.regs {
+			nx, ok := k.(*ssa.Next)
+			if !ok || !nx.IsString {
+				continue
+			}
+			tv, ok := rv.(TupleV)
+			it, ok2 := sc.frame.regs[nx.Iter].(IterV)
+			if !ok || !ok2 || len(tv.Elems) != 3 || it.Seq <= best {
+				continue
+			}
+			best = it.Seq
+			if name == "rangerune" {
+				out = tv.Elems[2]
+			} else {
+				out = tv.Elems[1]
+			}
+		}
+		if out != nil {
+			return out
+		}
+		return PoisonV{}
+	}
 	if sc.pkg != nil && sc.pkg.Pkg.Scope().Lookup(name) != nil {
 		return x.pkgMember(sc, sc.pkg.Pkg, name)
 	}
